@@ -12,11 +12,45 @@ thread_local! {
     /// text repertoire of the current session: 0 = ASCII only, 1 = any Unicode (UTF-8 sessions),
     /// 2 = Latin-1 letters (sessions that move between Windows-1252, ISO 8859-1 and UTF-8)
     pub static REPERTOIRE: std::cell::Cell<u8> = std::cell::Cell::new(1);
+    /// sample text of the session's own code page (repertoire 3)
+    pub static PAGE_TEXT: std::cell::Cell<&'static [&'static str]> = std::cell::Cell::new(&[]);
 }
+
+/// for each table-backed code page: text its repertoire contains (every string round-trips
+/// through that page); short strings, mixed ASCII / non-ASCII, multi-byte at either end
+pub const PAGE_SAMPLES: &[(&str, &[&str])] = &[
+    ("Windows932", &["\u{65e5}\u{672c}", "\u{30c6}\u{30b9}\u{30c8}a", "a\u{3042}", "\u{ff76}", "\u{65e5}"]),
+    ("Windows936", &["\u{4e2d}\u{6587}", "\u{4e2d}\u{6587}a", "a\u{4e2d}", "\u{e9}", "caf\u{e9}", "\u{20ac}"]),
+    ("Windows949", &["\u{d55c}\u{ae00}", "\u{d55c}a", "a\u{ae00}", "\u{d55c}"]),
+    ("Windows950", &["\u{4e2d}\u{6587}", "\u{4e2d}\u{6587}a", "a\u{4e2d}", "\u{4e2d}"]),
+    ("Windows951", &["\u{4e2d}\u{6587}", "\u{540d}\u{7a31}f", "a\u{4e2d}", "\u{6587}"]),
+    ("Windows1250", &["\u{151}", "\u{17e}lu\u{165}", "a\u{159}"]),
+    ("Windows1251", &["\u{416}", "\u{43f}\u{440}\u{438}\u{432}\u{435}\u{442}", "a\u{44f}"]),
+    ("Windows1252", &["caf\u{e9}", "\u{20ac}", "\u{fc}ber"]),
+    ("Windows1253", &["\u{3a9}", "\u{3b1}\u{3b2}\u{3b3}", "a\u{3c9}"]),
+    ("Windows1254", &["\u{11f}", "\u{130}stanbul", "a\u{15f}"]),
+    ("Windows1255", &["\u{5d0}", "\u{5e9}\u{5dc}\u{5d5}\u{5dd}", "a\u{5ea}"]),
+    ("Windows1256", &["\u{639}", "\u{633}\u{644}\u{627}\u{645}", "a\u{64a}"]),
+    ("Windows1257", &["\u{101}", "\u{161}\u{16b}", "a\u{17e}"]),
+    ("Windows1258", &["\u{1a1}", "\u{1b0}a", "a\u{111}"]),
+    ("Iso88591", &["caf\u{e9}", "\u{ff}", "\u{fc}ber"]),
+    ("Iso88592", &["\u{151}", "\u{17e}lu\u{165}", "a\u{159}"]),
+    ("Iso88593", &["\u{127}", "\u{11d}a", "a\u{109}"]),
+    ("Iso88594", &["\u{101}", "\u{137}a", "a\u{16b}"]),
+    ("Iso88595", &["\u{416}", "\u{43f}\u{440}\u{438}", "a\u{44f}"]),
+    ("Iso88596", &["\u{639}", "\u{633}\u{644}", "a\u{64a}"]),
+    ("Iso88597", &["\u{3a9}", "\u{3b1}\u{3b2}", "a\u{3c9}"]),
+    ("Iso88598", &["\u{5d0}", "\u{5e9}\u{5dc}", "a\u{5ea}"]),
+    ("MacintoshRoman", &["caf\u{e9}", "\u{2020}", "\u{fc}ber"]),
+    ("MacintoshCyrillic", &["\u{416}", "\u{43f}\u{440}", "a\u{44f}"]),
+];
 
 pub fn gen_strings(rng: &mut Rng, non_ascii: bool) -> String {
     let base = ["a", "b", "ab", "Zed", "x", "y", "hello world", "A.b_9", "", "b", "a", "zz"];
-    let uni: &[&str] = if REPERTOIRE.with(|r| r.get()) == 2 {
+    let rep = REPERTOIRE.with(|r| r.get());
+    let uni: &[&str] = if rep == 3 {
+        PAGE_TEXT.with(|t| t.get())
+    } else if rep == 2 {
         &["caf\u{e9}", "\u{fc}ber", "\u{f1}", "na\u{ef}ve", "\u{e9}\u{e9}\u{e9}", "\u{ff}\u{fe}AB"]
     } else {
         &["\u{e9}", "\u{65e5}\u{672c}", "na\u{ef}ve", "\u{1f600}", "\u{feff}abc", "\u{ff}\u{fe}AB"]
@@ -24,6 +58,7 @@ pub fn gen_strings(rng: &mut Rng, non_ascii: bool) -> String {
     match rng.below(20) {
         0 if non_ascii => rng.pick(uni).to_string(),
         1 if non_ascii => rng.pick(uni).to_string(),
+        3 | 4 if non_ascii && rep == 3 => rng.pick(uni).to_string(),
         2 => "q".repeat(rng.below(300) as usize),
         _ => rng.pick(&base).to_string(),
     }
@@ -52,6 +87,10 @@ pub fn gen_schema(rng: &mut Rng, name: &str, wide: bool) -> (String, Vec<ColDef>
                     // declared ranges: narrow, wider than a 16-bit cell can hold, touching the reserved minimum
                     c.range = Some(*rng.pick(&[(-5, 100), (-5, 100), (1, 100000), (-40000, 10), (-32768, 10), (0, 32768)]));
                 }
+                if rng.chance(1, 6) {
+                    // the installer schema lists permitted integers as an enumeration of numerals
+                    c.enums = vec!["0".into(), "1".into(), "7".into()];
+                }
             }
             CT::Str(_) => {
                 if rng.chance(1, 5) {
@@ -59,6 +98,10 @@ pub fn gen_schema(rng: &mut Rng, name: &str, wide: bool) -> (String, Vec<ColDef>
                 }
                 if rng.chance(1, 8) && c.cat.is_none() {
                     c.enums = vec!["a".into(), "b".into(), "Zed".into()];
+                }
+                if rng.chance(1, 6) {
+                    // a foreign-key annotation naming another table of the session (or none)
+                    c.fk = Some((rng.pick(&["A", "B", "Tbl3", "Elsewhere"]).to_string(), 1 + rng.below(3) as i32));
                 }
             }
         }
@@ -75,10 +118,12 @@ pub fn gen_schema(rng: &mut Rng, name: &str, wide: bool) -> (String, Vec<ColDef>
 pub fn gen_value(rng: &mut Rng, c: &ColDef, non_ascii: bool, allow_invalid: bool) -> V {
     if allow_invalid && rng.chance(1, 25) {
         // a value of the wrong kind or out of range
-        return match rng.below(4) {
+        return match rng.below(6) {
             0 => V::Null,
             1 => V::Int(*rng.pick(&[-32768, 32768, i32::MIN, 70000, -6, 101])),
             2 => V::Str("way too long for a narrow column".into()),
+            3 => V::Str(rng.pick(&["1", "0", "7", "12"]).to_string()),
+            4 if !c.enums.is_empty() => V::Str(rng.pick(&c.enums).clone()),
             _ => V::Str("9bad id".into()),
         };
     }
@@ -121,6 +166,30 @@ pub fn gen_value(rng: &mut Rng, c: &ColDef, non_ascii: bool, allow_invalid: bool
 pub fn gen_cond(rng: &mut Rng, cols: &[ColDef], rows: &[Vec<V>]) -> Option<E> {
     if rng.chance(1, 5) {
         return None;
+    }
+    if rng.chance(1, 5) {
+        // the condition as an arbitrary program over the table's columns: any operator at any
+        // depth, literal operands of AND / OR, results of logical operators used as values
+        let mut leaves: Vec<E> = cols.iter().map(|c| E::Col(c.name.clone())).collect();
+        let ncol = leaves.len();
+        for _ in 0..ncol {
+            let i = rng.below(ncol as u64) as usize;
+            leaves.push(leaves[i].clone());
+        }
+        for v in [V::Null, V::Int(0), V::Int(1), V::Int(2), V::Int(-1), V::Str("".into()), V::Str("a".into())] {
+            leaves.push(E::Lit(v));
+        }
+        if !rows.is_empty() {
+            let r = &rows[rng.below(rows.len() as u64) as usize];
+            leaves.push(E::Lit(r[rng.below(r.len() as u64) as usize].clone()));
+        }
+        let depth = 1 + rng.below(3) as usize;
+        let e = crate::gen::random_expr(rng, depth, &leaves);
+        return Some(match rng.below(3) {
+            0 => e,
+            1 => E::Bin(*rng.pick(&["eq", "ne", "lt", "gt"]), Box::new(e), Box::new(E::Lit(V::Int(1)))),
+            _ => E::Bin("eq", Box::new(E::Bin(*rng.pick(&["and", "or"]), Box::new(E::Lit(rng.pick(&[V::Int(1), V::Int(0), V::Null, V::Str("t".into())]).clone())), Box::new(e))), Box::new(E::Lit(V::Int(1)))),
+        });
     }
     let i = rng.below(cols.len() as u64) as usize;
     let col = E::Col(cols[i].name.clone());
@@ -182,15 +251,25 @@ pub fn gen_session(out: &mut Out, rng: &mut Rng, cfg: &HistCfg) {
     let pt = rng.below(3);
     out.req("new", format!("new {pt}"));
     // the session's text repertoire decides which code pages it may move between
-    let kind: u8 = if !cfg.non_ascii { 0 } else { *rng.pick(&[1u8, 1, 1, 0, 2]) };
+    let kind: u8 = if !cfg.non_ascii { 0 } else { *rng.pick(&[1u8, 1, 1, 0, 2, 3]) };
     REPERTOIRE.with(|r| r.set(kind));
     let non_ascii = kind != 0;
+    // repertoire 3: one of the 24 table-backed pages with text from its own repertoire; the
+    // session may move between that page and UTF-8 (which holds everything)
+    let own = rng.pick(PAGE_SAMPLES);
+    let own_pages = [own.0, "Utf8", own.0];
+    if kind == 3 {
+        PAGE_TEXT.with(|t| t.set(own.1));
+    }
     let pages: &[&str] = match kind {
-        0 => &["UsAscii", "Windows1252", "Windows932", "Utf8", "MacintoshRoman", "Iso88597", "Windows1251", "Windows936"],
+        0 => &["UsAscii", "Windows1252", "Windows932", "Utf8", "MacintoshRoman", "Iso88597", "Windows1251", "Windows936", "Windows951", "Windows949"],
         1 => &["Utf8"],
-        _ => &["Windows1252", "Utf8", "Iso88591", "Windows1252"],
+        2 => &["Windows1252", "Utf8", "Iso88591", "Windows1252"],
+        _ => &own_pages,
     };
-    if rng.chance(1, 4) || kind == 2 {
+    if kind == 3 {
+        out.req("set_db_cp", format!("set_db_cp {}", own.0));
+    } else if rng.chance(1, 4) || kind == 2 {
         let cp = *rng.pick(pages);
         out.req("set_db_cp", format!("set_db_cp {cp}"));
     }
